@@ -95,6 +95,7 @@ class _CrashingEpochStop(ml.EpochStop):
     def stop(self, model, current_epoch, train_loss, val_loss, epoch_time):
         w = self._world
         w.seam("stop")
+        w.disk.sync()  # an epoch is minutes of simulated time: whatever was written before has reached the disk
         w.log.add("epoch", [current_epoch, None if train_loss is None else round(float(train_loss), 5)])
         if self._crash is not None and current_epoch == self._crash["epoch"]:
             if "in_checkpoint_write" in self._crash:
